@@ -4,7 +4,7 @@
 From Coq Require Import NArith ZArith List.
 From Coq Require Import Reals.
 From Flocq Require Import Core IEEE754.Binary IEEE754.Bits.
-From KT Require Import Gen.Generated Gen.Alphabet Gen.GeneratedFacts Model.Rows Proof.CgrProof Proof.CgrFloat.
+From KT Require Import Gen.Generated Gen.Alphabet Gen.GeneratedFacts Model.Rows Proof.CgrProof Proof.CgrFloat Proof.CgrExact.
 Import ListNotations.
 
 (* the corner table found in the code is the one the property names: A=(0,0), C=(0,S), G=(S,S), T,U=(S,0),
@@ -73,6 +73,15 @@ Theorem C11_binary64_walk_stays_in_square :
                          (is_finite 53 1024 (snd p) = true /\ (0 <= B2R 53 1024 (snd p) <= IZR Sz)%R)) l.
 Proof. exact cgr_b64_in_square. Qed.
 
+(* ... and while bitlen(S) + length + 1 <= 53 (S = 1: the first 51 points; S = 2^20: the first 31) the binary64
+   walk computes EXACTLY the chaos-game values: point i has the real value of point i of the exact dyadic model *)
+Theorem C11_binary64_walk_is_exact_while_representable :
+  forall Sz b corner s lf ld, (0 <= Sz < 2 ^ Z.of_nat b)%Z -> (b <= 52)%nat -> (b + 1 + length s <= 53)%nat ->
+  cgr_b64 corner Sz s = Some lf -> cgr_exact corner Sz s = Some ld ->
+  Forall2 (fun f d => B2R 53 1024 (fst f) = dyR (fst d) /\ B2R 53 1024 (snd f) = dyR (snd d) /\
+                      is_finite 53 1024 (fst f) = true /\ is_finite 53 1024 (snd f) = true) lf ld.
+Proof. intros Sz b corner s lf ld HS Hb Hl. exact (cgr_b64_is_exact Sz b HS Hb corner s lf ld Hl). Qed.
+
 Example C11_example : m_cgr 1 [65; 67; 71; 84]%N = s_cgr 1 [65; 67; 71; 84]%N /\ m_cgr 1 [65; 78]%N = err.
 Proof. vm_compute. split; reflexivity. Qed.
 
@@ -87,3 +96,4 @@ Print Assumptions C11_prefix_determined_b64.
 Print Assumptions C11_inside_square.
 Print Assumptions C11_last_bases_fix_subsquare.
 Print Assumptions C11_binary64_walk_stays_in_square.
+Print Assumptions C11_binary64_walk_is_exact_while_representable.
